@@ -80,7 +80,13 @@ def make_data(scn):
         traces = (raw_f[:, :m] * scn.get('sigma', 1.0) + scn.get('offset', 0)).astype(td)
     W = int(np.prod(scn['wshape']))
     pool = np.asarray(scn['pool'])
-    if scn['regime'] == 'exact':
+    if W > WMAX:
+        # the standard attack layout (guesses x bytes, thousands of data words): own table, rows limited to what the history uses
+        nrows = max(o[2] for o in scn['ops'] if o[0] == 'u')
+        gd = rng.np_stream(scn['table_seed'], 'bigwords')
+        d = np.zeros((NMAX, W), dtype=pool.dtype)
+        d[:nrows] = pool[gd.integers(0, len(pool), (nrows, W))]
+    elif scn['regime'] == 'exact':
         d = pool[raw_d[:, :W] % len(pool)]
     else:
         i = np.arange(NMAX)[:, None] + np.arange(W)[None, :]
@@ -200,6 +206,12 @@ def gen_history(seed, tier, prop, kinds_allowed):
     else:
         wshape = _weighted(r, [([r.randint(1, 4)], 6), ([r.randint(1, 3), r.randint(1, 3)], 2),
                                ([2, r.randint(1, 2), 2], 1 if thorough else 0.3), ([16], 0.4), ([4, 4], 0.4)])     # incl. a 16-byte cipher state
+    if kind in kinds.PARTITIONED and regime == 'exact' and rng.stream(seed, 'attacklayout').random() < 0.03:
+        # 256 guesses x 16 bytes (or 64 x 16): the mask of the matmul kernel has rows x words x classes entries
+        wshape = rng.stream(seed, 'attacklayout2').choice([[256, 16], [64, 16], [256, 4]])
+        n = rng.stream(seed, 'attacklayout3').randint(120, 260)
+        m = min(m, 3)
+        scn['attack_layout'] = True
     scn['wshape'] = wshape
     # classes / data values
     scn['classes'] = None
@@ -208,13 +220,13 @@ def gen_history(seed, tier, prop, kinds_allowed):
     elif kind == 'dpa':
         scn['pool'] = [0, 1]
     elif kind in kinds.CLASS_BASED:
-        auto = regime == 'exact' and r.random() < (0.4 if prop == 'C16' else 0.25)
+        auto = regime == 'exact' and r.random() < (0.4 if prop == 'C16' else 0.25) and not scn.get('attack_layout')
         if auto:
             # C16: mostly class sets of the 64 bucket, so that a 9-class set left behind by a refused first call would be too small
             top = r.choice(([8, 63, 40, 63, 20] if prop == 'C16' else [8, 8, 5, 63, 40]) + ([255, 100] if thorough else []))
             scn['pool'] = list(range(top + 1))
         else:
-            cl = r.choice(CLASS_POOL)
+            cl = r.choice(CLASS_POOL) if not scn.get('attack_layout') else list(range(9))
             scn['classes'] = cl
             if kind == 'mia' and r.random() < 0.6:
                 scn['pool'] = list(cl)              # MIA: mostly declared values only (what an undeclared value does there is C12's question;
@@ -710,9 +722,15 @@ def _execute_history(scn):
                 try:
                     subject.update(traces[a:b], data[a:b])
                 except Exception as e:
-                    # a valid batch must be accepted whenever the twin accepts it
+                    # a valid batch must be accepted: every 'u' batch is shape-compatible by construction, so the arbiter is the ONE-BATCH twin
+                    # (all rows so far in a single update).  A fresh object replaying the same calls would reproduce a refusal that depends on
+                    # the split itself (a buffer sized by the first batch ...) and hide it.  Only where the configuration is by design taken
+                    # from the first batch (automatic MIA bin edges) the same-calls twin decides.
                     try:
-                        _twin_same_calls(scn, traces, data, accepted + [(a, b)])
+                        if (scn.get('mia') or {}).get('auto_edges'):
+                            _twin_same_calls(scn, traces, data, accepted + [(a, b)])
+                        else:
+                            _twin_one_batch(scn, traces, data, accepted + [(a, b)])
                         twin_ok = True
                     except Exception:
                         twin_ok = False
@@ -750,7 +768,10 @@ def _execute_history(scn):
                     r1 = subject.compute()
                 except Exception as e:
                     try:
-                        _twin_same_calls(scn, traces, data, accepted)
+                        if (scn.get('mia') or {}).get('auto_edges'):
+                            _twin_same_calls(scn, traces, data, accepted)
+                        else:
+                            _twin_one_batch(scn, traces, data, accepted)
                         twin_ok = True
                     except Exception:
                         twin_ok = False
@@ -850,12 +871,17 @@ def _execute_c11(scn):
         del env.KLOG[:]
         subject = _mk(scn)
         with env.clock(clock), env.memory(env.SimMemory()):
-            for (op, th) in zip(ups, envd['threads']):
-                numba.set_num_threads(th)
-                subject.update(traces[op[1]:op[2]], data[op[1]:op[2]])
-                probes['threads_%d' % th] = probes.get('threads_%d' % th, 0) + 1
-            numba.set_num_threads(1)
-            res = subject.compute()
+            try:
+                for (op, th) in zip(ups, envd['threads']):
+                    numba.set_num_threads(th)
+                    subject.update(traces[op[1]:op[2]], data[op[1]:op[2]])
+                    probes['threads_%d' % th] = probes.get('threads_%d' % th, 0) + 1
+                numba.set_num_threads(1)
+                res = subject.compute()
+            except Exception as e:
+                # valid batches refused / compute failing under this environment: compared with the others below
+                res = {'raised': np.array([hash(type(e).__name__) % 1000])}
+                probes['env_raised'] = probes.get('env_raised', 0) + 1
         ker = ''.join(str(k[1]) for k in env.KLOG)
         if clock.reads:
             c[1] += 1
@@ -866,7 +892,18 @@ def _execute_c11(scn):
         if '2' in ker and (scn['classes'] is not None and any(v not in scn['classes'] for v in scn['pool'])):
             probes['undeclared_while_kernel2'] = probes.get('undeclared_while_kernel2', 0) + 1
     violation = None
+    if all('raised' in o for o in outs):
+        # refused whatever the environment: not C11's question (C01 decides valid batches)
+        return {'violation': None, 'inconclusive': True, 'digest': rng.digest(log), 'case': 'all-raised', 'nontrivial': False,
+                'faults': faults, 'probes': probes, 'sim_time': sim_time, 'kernel_seqs': sorted(set(seqs)), 'ops': len(ups) * len(outs)}
     for e in range(1, len(outs)):
+        if ('raised' in outs[e]) != ('raised' in outs[0]):
+            what = 'kernel_schedule' if seqs[e] != seqs[0] else 'worker_count'
+            violation = viol('env_mismatch', ['C11', 'env_mismatch', kind, scn['regime'], 'raises_in_one_environment', what],
+                             'env %d (kernels %s threads %s) %s, env 0 (kernels %s threads %s) %s' % (
+                                 e, seqs[e], scn['envs'][e]['threads'], 'raises' if 'raised' in outs[e] else 'computes',
+                                 seqs[0], scn['envs'][0]['threads'], 'raises' if 'raised' in outs[0] else 'computes'))
+            break
         d = _same_c11(scn, outs[e], outs[0])
         if d:
             what = 'kernel_schedule' if seqs[e] != seqs[0] else 'worker_count'
@@ -882,6 +919,8 @@ def _execute_c11(scn):
 
 
 def _same_c11(scn, A, B):
+    if set(A) != set(B):
+        return 'outputs %s vs %s' % (sorted(A), sorted(B))
     for k in sorted(A):
         a, b = A[k], B[k]
         if scn['kind'] == 'mia' or scn['regime'] == 'exact':
